@@ -23,6 +23,7 @@ fn main() {
         "c07-stress" => stress::c07(&rest),
         "c07-pods" => extra::c07_pods(&rest),
         "src-replay" => sources::main(&rest),
+        "c09-trunc" => sources::c09_trunc(&rest),
         "embed-check" => sources::embed_check(&rest),
         "shared-replay" => shared::replay(&rest),
         "utf8-replay" => shared::utf8(&rest),
